@@ -1,26 +1,28 @@
 (* Error recovery of the template parser and of the render loop under the three tolerance modes
-   (Mode.STRICT / WARN / LAX).  The model works on the token stream the template lexer hands to the parser
-   (liquid/lex.py: CONTENT, OUTPUT always followed by EXPRESSION, TAG followed by EXPRESSION only when the
-   expression text is not empty) and transcribes, with the exact stream position at every raise:
-     Environment.error / RenderContext.error               -> handle
-     Parser._parse / Parser.parse_block (per-node catch)   -> ploop / pblock_of
-     Tag.get_node (IllegalNode + eat_block to the end tag) -> get_node
-     eat_block                                             -> eat_to
+   (Mode.STRICT / WARN / LAX) -- the enlarged language.  The model works on the token stream the template lexer hands to
+   the parser (liquid/lex.py: CONTENT, OUTPUT always followed by EXPRESSION, TAG followed by EXPRESSION only when the
+   expression text is not empty, COMMENT between comment / endcomment, DOC) and transcribes, with the exact stream position
+   at every raise:
+     Environment.error                                       -> handle
+     Parser._parse / Parser.parse_block (per-node catch)     -> ploop / pblock_of
+     Tag.get_node (IllegalNode + eat_block to the end tag; macro and block have NO end attribute and so eat to a tag
+       without a name, in practice to the end of the source)                                   -> get_node / end_of
+     eat_block                                               -> eat_to
      the parse methods of content, output, unknown tags (builtin/illegal.py), assign, echo, break, continue,
-     if / unless (elsif recovery, tag-local lax treatment of else expressions and of extra else / elsif blocks),
-     for / else, case / when / else (junk between case and the first when), capture
-     BoundTemplate.render_with_context (per top-level node: interrupt -> syntax error, LiquidError -> env.error)
-     BlockNode.render and the render methods of the nodes above (no handler below the top level).
-   Expressions are opaque: a token says whether its text parses (always / only outside strict mode / never) and what
-   it evaluates to on the data at hand (text, a count used as truth value - iterations - number of when matches,
-   or a render-time error).  Executable definitions only. *)
+     cycle, increment, decrement, include, render, call, extends (one shape: eat the tag, parse its expression in place),
+     if / unless (elsif recovery, tag-local lax rules), for / else, case / when / else, capture, tablerow, with, macro
+     (one shape: tag, expression, block, end tag), block (+ the endblock name check), ifchanged, translate / plural (message
+     validation after the block is parsed), comment, doc, the inline comment tag, liquid (its own token stream, parsed with
+     the block depth carried over)
+     BoundTemplate.render_with_context (per top-level node: interrupt -> syntax error, LiquidError -> env.error,
+       StopRender -> stop) and the render methods of the nodes above (no handler below the top level).
+   Expressions are opaque: a token says whether its text parses (always / only outside strict mode / never, with the error
+   class) and what it evaluates to on the data at hand.  Executable definitions only. *)
 From LiquidVerif Require Import Prelude.
 
 Inductive mode := Strict | Warn | Lax.
 
 (* ---------------------------------------------------------------- Environment.error *)
-(* emitted: the warnings the run has issued; suppressed: every error that reached Environment.error and was not
-   re-raised (what a user of lax mode never sees) *)
 Record log := { emitted : list exn; suppressed : list exn }.
 Definition log0 : log := {| emitted := []; suppressed := [] |}.
 
@@ -34,13 +36,19 @@ Definition handle (m : mode) (e : exn) (l : log) : res log :=
 (* ---------------------------------------------------------------- tokens *)
 Inductive rexpr :=
 | RVal (txt : str) (n : nat)      (* renders as txt; n is its truth (n > 0), iteration count, number of when matches *)
-| RCap                            (* the variable the capture tag writes *)
+| RVar (txt : str) (n : nat)      (* the same, and the expression is a bare variable (a translate block accepts only these) *)
+| RCap                            (* the variable the capture tag writes (a bare variable too) *)
+| RMacro                          (* the name of the macro the macro tag defines *)
 | RErr (e : exn).                 (* evaluation raises e *)
 
 Inductive xq :=
 | XOk (r : rexpr)                 (* the expression text parses in every mode *)
-| XStrictOnly (r : rexpr)         (* rejected by a check made only when env.mode is STRICT (path.py, arguments.py, filtered.py, loop.py) *)
-| XBad.                           (* LiquidSyntaxError in every mode *)
+| XStrictOnly (r : rexpr)         (* rejected by a check made only when env.mode is STRICT *)
+| XBad (e : exn)                  (* raises e in every mode: LiquidSyntaxError; TemplateInheritanceError for a wrong endblock name;
+                                     ContextDepthError for an expression nested so deeply that parsing it overflows the stack
+                                     (before the repair: RecursionError, which Tag.get_node does not catch) *)
+| XTailBad (r : rexpr).           (* a when list: the first alternatives evaluate to r, a later one is a syntax error.  The error goes
+                                     to Environment.error and the list is cut there (before the repair it was dropped silently) *)
 
 Inductive tname :=
 | Nif | Nunless | Nelsif | Nelse | Nendif | Nendunless
@@ -48,36 +56,70 @@ Inductive tname :=
 | Ncase | Nwhen | Nendcase
 | Ncapture | Nendcapture
 | Nassign | Necho
-| Nunknown.                       (* any name without a registered tag *)
+| Ntablerow | Nendtablerow | Ncycle | Nincrement | Ndecrement | Ninclude | Nrender
+| Nliquid | Ncomment | Nendcomment | Ndoc | Nenddoc | Nhash
+| Nifchanged | Nendifchanged
+| Nwith | Nendwith | Nmacro | Nendmacro | Ncall | Nextends | Nblock | Nendblock
+| Ntranslate | Nplural | Nendtranslate
+| Nnoname                         (* a tag without a name *)
+| Nunknown.                       (* any other name without a registered tag *)
 
 Inductive tok :=
 | TContent (s : str)
 | TOutput
 | TExpr (q : xq)
-| TTag (n : tname).
+| TTag (n : tname)
+| TComment                        (* the text between comment and endcomment (reaching the parser's loop it is not content: an error) *)
+| TDoc                            (* a well-formed doc block *)
+| TLiquid (inner : option (list tok)).   (* the expression of a liquid tag: its own token stream (None: a line is not a tag) *)
 
 Definition tname_eqb (a b : tname) : bool :=
   match a, b with
   | Nif, Nif | Nunless, Nunless | Nelsif, Nelsif | Nelse, Nelse | Nendif, Nendif | Nendunless, Nendunless
   | Nfor, Nfor | Nendfor, Nendfor | Nbreak, Nbreak | Ncontinue, Ncontinue
   | Ncase, Ncase | Nwhen, Nwhen | Nendcase, Nendcase | Ncapture, Ncapture | Nendcapture, Nendcapture
-  | Nassign, Nassign | Necho, Necho | Nunknown, Nunknown => true
+  | Nassign, Nassign | Necho, Necho
+  | Ntablerow, Ntablerow | Nendtablerow, Nendtablerow | Ncycle, Ncycle | Nincrement, Nincrement | Ndecrement, Ndecrement
+  | Ninclude, Ninclude | Nrender, Nrender | Nliquid, Nliquid | Ncomment, Ncomment | Nendcomment, Nendcomment
+  | Ndoc, Ndoc | Nenddoc, Nenddoc | Nhash, Nhash | Nifchanged, Nifchanged | Nendifchanged, Nendifchanged
+  | Nwith, Nwith | Nendwith, Nendwith | Nmacro, Nmacro | Nendmacro, Nendmacro | Ncall, Ncall | Nextends, Nextends
+  | Nblock, Nblock | Nendblock, Nendblock | Ntranslate, Ntranslate | Nplural, Nplural | Nendtranslate, Nendtranslate
+  | Nnoname, Nnoname | Nunknown, Nunknown => true
   | _, _ => false
   end.
 
 Fixpoint tmem (n : tname) (l : list tname) : bool :=
   match l with [] => false | x :: l' => tname_eqb n x || tmem n l' end.
 
+(* number of tokens, those inside liquid tags included: the measure of the parser's progress *)
+Fixpoint tok_size (t : tok) : nat :=
+  match t with
+  | TLiquid (Some l) => S ((fix sz (l : list tok) : nat := match l with [] => 0 | x :: r => tok_size x + sz r end) l)
+  | _ => 1
+  end.
+Fixpoint tsize (l : list tok) : nat := match l with [] => 0 | x :: r => tok_size x + tsize r end.
+
 (* ---------------------------------------------------------------- parse tree *)
 Inductive node :=
 | NContent (s : str)
-| NIllegal
-| NOutput (r : rexpr)                                             (* output statement and echo *)
+| NIllegal                                                        (* also comment, doc and inline comment nodes: nothing is rendered *)
+| NOutput (r : rexpr)                                             (* output statement *)
+| NEmit (r : rexpr)                                               (* echo, cycle, render: writes the value of r *)
+| NInclude (r : rexpr)
 | NAssign (r : rexpr)
-| NIf (neg : bool) (c : rexpr) (cns : block) (alt : alts) (dflt : block)   (* neg: unless *)
+| NIncr (dec : bool)                                              (* increment / decrement *)
+| NIf (neg : bool) (c : rexpr) (cns : block) (alt : alts) (dflt : block)
 | NFor (c : rexpr) (body : block) (dflt : block)
+| NTablerow (c : rexpr) (body : block)
 | NCase (bs : cblocks)
 | NCapture (body : block)
+| NIfchanged (body : block)
+| NGroup (body : block)                                           (* with, liquid *)
+| NMacro (body : block)
+| NCall (r : rexpr)
+| NExtends (r : rexpr)
+| NBlockTag (r : rexpr) (body : block)
+| NTranslate (sing : block) (plur : block)
 | NBreak | NContinue
 with block := BNil | BCons (n : node) (b : block)
 with alts := ANil | ACons (r : rexpr) (b : block) (a : alts)
@@ -91,8 +133,9 @@ Definition adv (st : stream) : stream := {| toks := tl (toks st); depth := depth
 Definition cur_is_tag (n : tname) (st : stream) : bool :=
   match toks st with TTag n' :: _ => tname_eqb n n' | _ => false end.
 
+(* the current token has kind EXPRESSION *)
 Definition cur_is_expr (st : stream) : bool :=
-  match toks st with TExpr _ :: _ => true | _ => false end.
+  match toks st with TExpr _ :: _ | TLiquid _ :: _ => true | _ => false end.
 
 Fixpoint eat_to (stops : list tname) (ts : list tok) : list tok :=
   match ts with
@@ -103,7 +146,6 @@ Fixpoint eat_to (stops : list tname) (ts : list tok) : list tok :=
 Definition eat_block (stops : list tname) (st : stream) : stream :=
   {| toks := eat_to stops (toks st); depth := depth st |}.
 
-(* outcome of a parse method: a value, or a raise, each with the stream position and the log at that moment *)
 Inductive pres (A : Type) :=
 | POk (a : A) (st : stream) (l : log)
 | PErr (e : exn) (st : stream) (l : log)
@@ -113,11 +155,9 @@ Arguments POk {A} a st l. Arguments PErr {A} e st l. Arguments PFuel {A}.
 Definition pbind {A B} (r : pres A) (k : A -> stream -> log -> pres B) : pres B :=
   match r with POk a st l => k a st l | PErr e st l => PErr e st l | PFuel => PFuel end.
 
-(* Environment.error at a point where execution continues with k when the error is not re-raised *)
 Definition handled {B} (m : mode) (e : exn) (st : stream) (l : log) (k : log -> pres B) : pres B :=
   match handle m e l with Ok l' => k l' | Err e' => PErr e' st l | OutOfFuel => PFuel end.
 
-(* the words that stop the junk skipping between case and its first when (it compares token VALUES) *)
 From Coq Require Import String Ascii.
 Definition slit (x : string) : str := map N_of_ascii (list_ascii_of_string x).
 Definition junk_words : list str :=
@@ -127,30 +167,49 @@ Fixpoint smem (s : str) (l : list str) : bool := match l with [] => false | x ::
 Fixpoint skip_junk (ts : list tok) : list tok :=
   match ts with
   | TContent s :: r => if smem s junk_words then ts else skip_junk r
-  | TOutput :: r => skip_junk r
-  | TExpr _ :: r => skip_junk r
+  | TOutput :: r | TExpr _ :: r | TComment :: r | TDoc :: r | TLiquid _ :: r => skip_junk r
   | _ => ts
+  end.
+
+(* DocTag.parse on a malformed doc tag: scan to enddoc; a nested doc tag or the end of the stream is an error *)
+Fixpoint doc_scan (ts : list tok) : bool * list tok :=
+  match ts with
+  | [] => (false, [])
+  | TTag Ndoc :: _ => (false, ts)
+  | TTag Nenddoc :: _ => (true, ts)
+  | _ :: r => doc_scan r
+  end.
+
+(* the message block of a translate tag may hold text and bare variables only *)
+Definition simple (r : rexpr) : bool := match r with RVar _ _ | RCap => true | _ => false end.
+Fixpoint valid_msg (b : block) : bool :=
+  match b with
+  | BNil => true
+  | BCons (NContent _) b' => valid_msg b'
+  | BCons (NOutput r) b' => simple r && valid_msg b'
+  | BCons _ _ => false
   end.
 
 Section Parser.
   Variable m : mode.
   Variable limit : nat.                                     (* env.block_nesting_limit *)
 
-  Definition pexpr (q : xq) : option rexpr :=
+  Definition pexpr (q : xq) : exn + rexpr :=
     match q with
-    | XOk r => Some r
-    | XStrictOnly r => match m with Strict => None | _ => Some r end
-    | XBad => None
+    | XOk r => inr r
+    | XStrictOnly r => match m with Strict => inl ESyntax | _ => inr r end
+    | XBad e => inl e
+    | XTailBad _ => inl ESyntax
     end.
 
-  (* stream.into_inner(tag=..., eat=...) followed by the tag's expression parser: the value and the stream, or the
-     stream position at the raise (with eat, the expression token is consumed before its text is parsed) *)
-  Definition inner (eat : bool) (st : stream) : (rexpr * stream) + stream :=
+  (* stream.into_inner(tag=..., eat=...) followed by the tag's expression parser *)
+  Definition inner (eat : bool) (st : stream) : (rexpr * stream) + (exn * stream) :=
     match toks st with
     | TExpr q :: _ =>
         let st' := if eat then adv st else st in
-        match pexpr q with Some r => inl (r, st') | None => inr st' end
-    | _ => inr st
+        match pexpr q with inr r => inl (r, st') | inl e => inr (e, st') end
+    | TLiquid _ :: _ => inr (ESyntax, if eat then adv st else st)
+    | _ => inr (ESyntax, st)
     end.
 
   (* ---- tags without a block ---- *)
@@ -158,37 +217,57 @@ Section Parser.
     match toks st with TContent s :: _ => POk (NContent s) st l | _ => PErr ESyntax st l end.
 
   Definition p_output (st : stream) (l : log) : pres node :=
-    let st1 := adv st in
-    match inner false st1 with inl (r, st2) => POk (NOutput r) st2 l | inr st2 => PErr ESyntax st2 l end.
+    match inner false (adv st) with inl (r, st2) => POk (NOutput r) st2 l | inr (e, st2) => PErr e st2 l end.
 
   Definition p_illegal (st : stream) (l : log) : pres node :=
     PErr ESyntax (if cur_is_expr (adv st) then adv st else st) l.
 
-  Definition p_assign (st : stream) (l : log) : pres node :=
-    match inner false (adv st) with inl (r, st2) => POk (NAssign r) st2 l | inr st2 => PErr ESyntax st2 l end.
+  (* assign, cycle, increment, decrement, include, render, call, extends: eat the tag, parse the expression where it is *)
+  Definition p_inline (mk : rexpr -> node) (st : stream) (l : log) : pres node :=
+    match inner false (adv st) with inl (r, st2) => POk (mk r) st2 l | inr (e, st2) => PErr e st2 l end.
 
   Definition p_echo (st : stream) (l : log) : pres node :=
     let st1 := adv st in
     match toks st1 with
-    | [] => POk (NOutput (RVal [] 0)) st1 l
-    | _ => match inner false st1 with inl (r, st2) => POk (NOutput r) st2 l | inr st2 => PErr ESyntax st2 l end
+    | [] => POk (NEmit (RVal [] 0)) st1 l
+    | _ => match inner false st1 with inl (r, st2) => POk (NEmit r) st2 l | inr (e, st2) => PErr e st2 l end
     end.
 
-  Definition p_leaf (n : node) (st : stream) (l : log) : pres node := POk n st l.     (* break, continue *)
+  Definition p_leaf (n : node) (st : stream) (l : log) : pres node := POk n st l.     (* break, continue; COMMENT and DOC tokens *)
+
+  (* the inline comment tag *)
+  Definition p_hash (st : stream) (l : log) : pres node :=
+    match toks (adv st) with
+    | TExpr q :: _ => match pexpr q with inr _ => POk NIllegal (adv st) l | inl e => PErr e (adv st) l end
+    | TLiquid _ :: _ => POk NIllegal (adv st) l
+    | _ => POk NIllegal st l
+    end.
+
+  (* comment: skip to endcomment *)
+  Definition p_comment (st : stream) (l : log) : pres node :=
+    let st2 := eat_block [Nendcomment] (adv st) in
+    if cur_is_tag Nendcomment st2 then POk NIllegal st2 l else PErr ESyntax st2 l.
+
+  Definition p_doc (st : stream) (l : log) : pres node :=
+    let st1 := adv st in
+    if cur_is_expr st1 then PErr ESyntax st1 l
+    else let '(ok, ts) := doc_scan (toks st1) in
+         let st2 := {| toks := ts; depth := depth st1 |} in
+         if ok then POk NIllegal st2 l else PErr ESyntax st2 l.
 
   (* ---- block tags; pb is Parser.parse_block ---- *)
   Variable pb : list tname -> stream -> log -> pres block.
 
-  (* the while loop over elsif tags of IfTag.parse / UnlessTag.parse.  None: an elsif expression did not parse, the
-     error went to Environment.error, the stream was moved to the next elsif / else / end tag and the whole tag
-     becomes an IllegalNode *)
   Fixpoint p_elsifs (g : nat) (endt : tname) (st : stream) (l : log) : pres (option alts) :=
     match g with
     | O => PFuel
     | S g' =>
         if cur_is_tag Nelsif st then
           match inner true (adv st) with
-          | inr st' => handled m ESyntax st' l (fun l' => POk None (eat_block [endt; Nelsif; Nelse] st') l')
+          | inr (e, st') =>
+              (* the handler around the elsif expression catches LiquidSyntaxError only *)
+              if exn_eqb e ESyntax then handled m e st' l (fun l' => POk None (eat_block [endt; Nelsif; Nelse] st') l')
+              else PErr e st' l
           | inl (r, st') =>
               pbind (pb [endt; Nelsif; Nelse] st' l) (fun b st2 l2 =>
               pbind (p_elsifs g' endt st2 l2) (fun oa st3 l3 =>
@@ -200,7 +279,7 @@ Section Parser.
   Definition p_if (g : nat) (neg : bool) (st : stream) (l : log) : pres node :=
     let endt := if neg then Nendunless else Nendif in
     match inner true (adv st) with
-    | inr st2 => PErr ESyntax st2 l
+    | inr (e, st2) => PErr e st2 l
     | inl (c, st2) =>
         pbind (pb [endt; Nelsif; Nelse] st2 l) (fun cns st3 l3 =>
         pbind (p_elsifs g endt st3 l3) (fun oa st4 l4 =>
@@ -218,19 +297,73 @@ Section Parser.
 
   Definition p_for (st : stream) (l : log) : pres node :=
     match inner true (adv st) with
-    | inr st2 => PErr ESyntax st2 l
+    | inr (e, st2) => PErr e st2 l
     | inl (c, st2) =>
         pbind (pb [Nendfor; Nelse] st2 l) (fun body st3 l3 =>
         pbind (if cur_is_tag Nelse st3 then pb [Nendfor] (adv st3) l3 else POk BNil st3 l3) (fun d st4 l4 =>
         if cur_is_tag Nendfor st4 then POk (NFor c body d) st4 l4 else PErr ESyntax st4 l4))
     end.
 
-  Definition p_capture (st : stream) (l : log) : pres node :=
+  (* capture, tablerow, with, macro: tag, expression, block, end tag *)
+  Definition p_block1 (mk : rexpr -> block -> node) (endt : tname) (st : stream) (l : log) : pres node :=
     match inner true (adv st) with
-    | inr st2 => PErr ESyntax st2 l
+    | inr (e, st2) => PErr e st2 l
+    | inl (c, st2) =>
+        pbind (pb [endt] st2 l) (fun body st3 l3 =>
+        if cur_is_tag endt st3 then POk (mk c body) st3 l3 else PErr ESyntax st3 l3)
+    end.
+
+  (* block: the same, then the name in the endblock tag, if any, must be the block's *)
+  Definition p_blocktag (st : stream) (l : log) : pres node :=
+    match inner true (adv st) with
+    | inr (e, st2) => PErr e st2 l
+    | inl (c, st2) =>
+        pbind (pb [Nendblock] st2 l) (fun body st3 l3 =>
+        if cur_is_tag Nendblock st3 then
+          if cur_is_expr (adv st3) then
+            match inner false (adv st3) with
+            | inl (_, st4) => POk (NBlockTag c body) st4 l3
+            | inr (e, st4) => PErr e st4 l3
+            end
+          else POk (NBlockTag c body) st3 l3
+        else PErr ESyntax st3 l3)
+    end.
+
+  Definition p_ifchanged (st : stream) (l : log) : pres node :=
+    pbind (pb [Nendifchanged] (adv st) l) (fun body st3 l3 =>
+    if cur_is_tag Nendifchanged st3 then POk (NIfchanged body) st3 l3 else PErr ESyntax st3 l3).
+
+  Definition p_translate (st : stream) (l : log) : pres node :=
+    let st1 := adv st in
+    match (if cur_is_expr st1 then inner true st1 else inl (RVal [] 0, st1)) with
+    | inr (e, st2) => PErr e st2 l
     | inl (_, st2) =>
-        pbind (pb [Nendcapture] st2 l) (fun body st3 l3 =>
-        if cur_is_tag Nendcapture st3 then POk (NCapture body) st3 l3 else PErr ESyntax st3 l3)
+        pbind (pb [Nendtranslate; Nplural] st2 l) (fun sing st3 l3 =>
+        if valid_msg sing then
+          pbind (if cur_is_tag Nplural st3 then pb [Nendtranslate] (adv st3) l3 else POk BNil st3 l3) (fun plur st4 l4 =>
+          if valid_msg plur then
+            if cur_is_tag Nendtranslate st4 then POk (NTranslate sing plur) st4 l4 else PErr ESyntax st4 l4
+          else PErr ESyntax st4 l4)
+        else PErr ESyntax st3 l3)
+    end.
+
+  (* liquid: an empty tag is an empty block; otherwise the expression is tokenised and parsed as a block of its own, with the
+     block depth carried over; the outer stream stays on the expression *)
+  Definition p_liquid (st : stream) (l : log) : pres node :=
+    match toks (adv st) with
+    | TLiquid oi :: _ =>
+        let st1 := adv st in
+        match oi with
+        | None => PErr ESyntax st1 l
+        | Some inner_toks =>
+            match pb [] {| toks := inner_toks; depth := depth st |} l with
+            | POk b _ l2 => POk (NGroup b) st1 l2
+            | PErr e _ l2 => PErr e st1 l2
+            | PFuel => PFuel
+            end
+        end
+    | TExpr _ :: _ => PErr ESyntax (adv st) l
+    | _ => POk (NGroup BNil) st l
     end.
 
   Definition endwhen : list tname := [Nendcase; Nwhen; Nelse].
@@ -244,53 +377,80 @@ Section Parser.
           pbind (pb endwhen (adv st) l) (fun b st2 l2 =>
           pbind (p_cases g' st2 l2) (fun c st3 l3 => POk (CElse b c) st3 l3))
         else if cur_is_tag Nwhen st then
-          match inner true (adv st) with
-          | inr st' => PErr ESyntax st' l
-          | inl (r, st') =>
-              pbind (pb endwhen st' l) (fun b st2 l2 =>
-              pbind (p_cases g' st2 l2) (fun c st3 l3 => POk (CWhen r b c) st3 l3))
+          match toks (adv st) with
+          | TExpr (XTailBad r) :: _ =>
+              let st' := adv (adv st) in
+              handled m ESyntax st' l (fun l' =>
+              pbind (pb endwhen st' l') (fun b st2 l2 =>
+              pbind (p_cases g' st2 l2) (fun c st3 l3 => POk (CWhen r b c) st3 l3)))
+          | _ =>
+              match inner true (adv st) with
+              | inr (e, st') => PErr e st' l
+              | inl (r, st') =>
+                  pbind (pb endwhen st' l) (fun b st2 l2 =>
+                  pbind (p_cases g' st2 l2) (fun c st3 l3 => POk (CWhen r b c) st3 l3))
+              end
           end
         else PErr ESyntax st l
     end.
 
   Definition p_case (g : nat) (st : stream) (l : log) : pres node :=
     match inner true (adv st) with
-    | inr st2 => PErr ESyntax st2 l
+    | inr (e, st2) => PErr e st2 l
     | inl (_, st2) =>
         let st3 := {| toks := skip_junk (toks st2); depth := depth st2 |} in
         pbind (p_cases g st3 l) (fun bs st4 l4 => POk (NCase bs) st4 l4)
     end.
 
-  (* the register: parse method and, for block tags, the end tag that Tag.get_node eats to *)
+  (* the register *)
   Definition parse_of (g : nat) (n : tname) : stream -> log -> pres node :=
     match n with
     | Nif => p_if g false | Nunless => p_if g true
-    | Nfor => p_for | Ncase => p_case g | Ncapture => p_capture
-    | Nassign => p_assign | Necho => p_echo
+    | Nfor => p_for | Ncase => p_case g
+    | Ncapture => p_block1 (fun _ b => NCapture b) Nendcapture
+    | Ntablerow => p_block1 NTablerow Nendtablerow
+    | Nwith => p_block1 (fun _ b => NGroup b) Nendwith
+    | Nmacro => p_block1 (fun _ b => NMacro b) Nendmacro
+    | Nblock => p_blocktag
+    | Nifchanged => p_ifchanged
+    | Ntranslate => p_translate
+    | Nassign => p_inline NAssign
+    | Ncycle | Nrender => p_inline NEmit
+    | Ninclude => p_inline NInclude
+    | Nincrement => p_inline (fun _ => NIncr false) | Ndecrement => p_inline (fun _ => NIncr true)
+    | Ncall => p_inline NCall | Nextends => p_inline NExtends
+    | Necho => p_echo
     | Nbreak => p_leaf NBreak | Ncontinue => p_leaf NContinue
+    | Nhash => p_hash | Ncomment => p_comment | Ndoc => p_doc | Nliquid => p_liquid
     | _ => p_illegal
     end.
 
+  (* the tag Tag.get_node eats to when a block tag fails; macro and block inherit end = "" from Tag *)
   Definition end_of (n : tname) : option tname :=
     match n with
     | Nif => Some Nendif | Nunless => Some Nendunless | Nfor => Some Nendfor
     | Ncase => Some Nendcase | Ncapture => Some Nendcapture
+    | Ntablerow => Some Nendtablerow | Nifchanged => Some Nendifchanged | Nwith => Some Nendwith
+    | Ntranslate => Some Nendtranslate | Ncomment => Some Nendcomment | Ndoc => Some Nenddoc
+    | Nmacro | Nblock => Some Nnoname
     | _ => None
     end.
 
-  (* Tag.get_node *)
   Definition get_node (parse : stream -> log -> pres node) (endt : option tname) (st : stream) (l : log) : pres node :=
     match parse st l with
     | PErr e st' l' =>
-        handled m e st' l' (fun l2 => POk NIllegal (match endt with Some e' => eat_block [e'] st' | None => st' end) l2)
+        (* except LiquidError *)
+        if is_liquid e then
+          handled m e st' l' (fun l2 => POk NIllegal (match endt with Some e' => eat_block [e'] st' | None => st' end) l2)
+        else PErr e st' l'
     | r => r
     end.
 
-  (* the dispatch at the top of the loop body of _parse / parse_block *)
   Definition pnode (g : nat) (st : stream) (l : log) : pres node :=
     match toks st with
     | TOutput :: _ => get_node p_output None st l
     | TTag n :: _ => get_node (parse_of g n) (end_of n) st l
+    | TDoc :: _ => get_node (p_leaf NIllegal) (Some Nenddoc) st l
     | _ => get_node p_content None st l
     end.
 End Parser.
@@ -298,14 +458,12 @@ End Parser.
 Definition is_stop (stops : list tname) (t : tok) : bool :=
   match t with TTag n => tmem n stops | _ => false end.
 
-(* Parser.parse_block around its loop: block_depth bookkeeping (the raise leaves the depth incremented) *)
 Definition pblock_of (limit : nat) (loop : list tname -> stream -> log -> pres block)
   (stops : list tname) (st : stream) (l : log) : pres block :=
   let st1 := {| toks := toks st; depth := S (depth st) |} in
   if Nat.ltb limit (depth st1) then PErr ELiquid st1 l        (* BlockNestingError *)
   else pbind (loop stops st1 l) (fun b st2 l2 => POk b {| toks := toks st2; depth := pred (depth st2) |} l2).
 
-(* the loop shared by Parser._parse (stops = []) and Parser.parse_block *)
 Fixpoint ploop (m : mode) (limit : nat) (f : nat) (stops : list tname) (st : stream) (l : log) {struct f} : pres block :=
   match f with
   | O => PFuel
@@ -317,7 +475,8 @@ Fixpoint ploop (m : mode) (limit : nat) (f : nat) (stops : list tname) (st : str
           else
             match pnode m (pblock_of limit (ploop m limit f')) f' st l with
             | POk n st' l' => pbind (ploop m limit f' stops (adv st') l') (fun b st2 l2 => POk (BCons n b) st2 l2)
-            | PErr e st' l' => handled m e st' l' (fun l2 => ploop m limit f' stops (adv st') l2)
+            | PErr e st' l' =>
+                if is_liquid e then handled m e st' l' (fun l2 => ploop m limit f' stops (adv st') l2) else PErr e st' l'
             | PFuel => PFuel
             end
       end
@@ -331,112 +490,229 @@ Definition parse_fuel (m : mode) (limit : nat) (f : nat) (ts : list tok) : res (
   end.
 
 Definition parse (m : mode) (limit : nat) (ts : list tok) : res (block * log) :=
-  parse_fuel m limit (S (List.length ts)) ts.
+  parse_fuel m limit (S (tsize ts)) ts.
+
+(* CaseTag._parse_when_expression before the repair: a syntax error in a later alternative was dropped in EVERY mode, and an
+   alternative rejected only by a strict-mode check therefore made strict mode keep a SHORTER list than lax and warn mode.
+   rs: the value of the alternatives before the rejected one, rl: the value of the whole list. *)
+Definition when_value_old (m : mode) (rs rl : rexpr) : rexpr := match m with Strict => rs | _ => rl end.
+(* after the repair the rejected alternative raises in strict mode (the list is the token class XStrictOnly rl) *)
+Definition when_value (m : mode) (rs rl : rexpr) : option rexpr := match m with Strict => None | _ => Some rl end.
 
 (* ---------------------------------------------------------------- rendering *)
 Inductive intr := IBreak | IContinue.
-Inductive outcome := Done | Raised (e : exn) | Intr (i : intr).
+Inductive outcome := Done | Raised (e : exn) | Intr (i : intr) | Stop.      (* Stop: StopRender after a successful extends *)
 
-(* (text written to the buffer, value of the captured variable afterwards, how the call ended) *)
-Definition rr := (str * str * outcome)%type.
+(* what a render context remembers *)
+Record rst := {
+  cap : str;            (* the variable the capture tag writes *)
+  ctr : nat;            (* the counter of the increment tag *)
+  dctr : nat;           (* the counter of the decrement tag (another name) *)
+  last : str;           (* ifchanged *)
+  mac : option block    (* the macro the macro tag has defined *)
+}.
+Definition rst0 : rst := {| cap := []; ctr := 0; dctr := 0; last := []; mac := None |}.
 
-Definition eval (r : rexpr) (cap : str) : (str * nat) + exn :=
+Definition rr := (str * rst * outcome)%type.
+
+Definition digit (n : nat) : str := [N.of_nat (48 + Nat.modulo n 10)].
+Definition dec_str (n : nat) : str := if Nat.ltb n 10 then digit n else digit (Nat.div n 10) ++ digit n.   (* n < 100 *)
+
+Definition eval (r : rexpr) (s : rst) : (str * nat) + exn :=
   match r with
-  | RVal t n => inl (t, n)
-  | RCap => inl (cap, List.length cap)
+  | RVal t n | RVar t n => inl (t, n)
+  | RCap => inl (cap s, List.length (cap s))
+  | RMacro => inl ([], 0)
   | RErr e => inr e
   end.
 
-Definition seq (a : rr) (k : str -> rr) : rr :=
+Definition seq (a : rr) (k : rst -> rr) : rr :=
   let '(t, c, o) := a in
   match o with Done => let '(t2, c2, o2) := k c in (t ++ t2, c2, o2) | _ => (t, c, o) end.
 
-Fixpoint rnode (n : node) (cap : str) {struct n} : rr :=
-  match n with
-  | NContent s => (s, cap, Done)
-  | NIllegal => ([], cap, Done)
-  | NOutput r => match eval r cap with inl (t, _) => (t, cap, Done) | inr e => ([], cap, Raised e) end
-  | NAssign r => match eval r cap with inr e => ([], cap, Raised e) | inl _ => ([], cap, Done) end
-  | NIf neg c cns alt d =>
-      match eval c cap with
-      | inr e => ([], cap, Raised e)
-      | inl (_, k) => if xorb neg (negb (Nat.eqb k 0)) then rblock cns cap else match ralts alt cap with Some r => r | None => rblock d cap end
-      end
-  | NFor c body d =>
-      match eval c cap with
-      | inr e => ([], cap, Raised e)
-      | inl (_, O) => rblock d cap
-      | inl (_, k) =>
-          (fix iter (k : nat) (cap : str) : rr :=
-             match k with
-             | O => ([], cap, Done)
-             | S k' =>
-                 let '(t, c, o) := rblock body cap in
-                 match o with
-                 | Done | Intr IContinue => let '(t2, c2, o2) := iter k' c in (t ++ t2, c2, o2)
-                 | Intr IBreak => (t, c, Done)
-                 | Raised e => (t, c, Raised e)
-                 end
-             end) k cap
-      end
-  | NCase bs => rcases bs true cap
-  | NCapture body =>
-      let '(t, c, o) := rblock body cap in
-      match o with Done => ([], t, Done) | _ => ([], c, o) end
-  | NBreak => ([], cap, Intr IBreak)
-  | NContinue => ([], cap, Intr IContinue)
-  end
-with rblock (b : block) (cap : str) {struct b} : rr :=
-  match b with
-  | BNil => ([], cap, Done)
-  | BCons n b' => seq (rnode n cap) (rblock b')
-  end
-with ralts (a : alts) (cap : str) {struct a} : option rr :=       (* None: no elsif condition holds *)
-  match a with
-  | ANil => None
-  | ACons r b a' =>
-      match eval r cap with
-      | inr e => Some ([], cap, Raised e)
-      | inl (_, k) => if Nat.eqb k 0 then ralts a' cap else Some (rblock b cap)
-      end
-  end
-with rcases (c : cblocks) (dflt : bool) (cap : str) {struct c} : rr :=
-  match c with
-  | CNil => ([], cap, Done)
-  | CWhen r b c' =>
-      match eval r cap with
-      | inr e => ([], cap, Raised e)
-      | inl (_, O) => rcases c' dflt cap
-      | inl (_, k) =>
-          seq ((fix rep (k : nat) (cap : str) : rr :=
-                  match k with O => ([], cap, Done) | S k' => seq (rblock b cap) (rep k') end) k cap)
-              (rcases c' false)
-      end
-  | CElse b c' => if dflt then seq (rblock b cap) (rcases c' dflt) else rcases c' dflt cap
+Definition tr_open : str := slit "<tr class=""row1"">" ++ [10%N].
+Definition td_open (i : nat) : str := slit "<td class=""col" ++ dec_str i ++ slit """>".
+Definition td_close : str := slit "</td>".
+Definition tr_close : str := slit "</tr>" ++ [10%N].
+
+Section Render.
+  Variable callm : block -> str * outcome.     (* a macro body rendered in a copy of the context (one level down) *)
+  Variable inh_bad : bool.                     (* the template has more than one extends tag or two blocks of one name *)
+
+  (* dis: the context disables the include and block tags (inside a macro call) *)
+  Fixpoint rnode (dis : bool) (n : node) (s : rst) {struct n} : rr :=
+    match n with
+    | NContent t => (t, s, Done)
+    | NIllegal => ([], s, Done)
+    | NOutput r | NEmit r => match eval r s with inl (t, _) => (t, s, Done) | inr e => ([], s, Raised e) end
+    | NInclude r =>
+        if dis then ([], s, Raised EDisabledTag)
+        else match eval r s with inl (t, _) => (t, s, Done) | inr e => ([], s, Raised e) end
+    | NAssign r => match eval r s with inr e => ([], s, Raised e) | inl _ => ([], s, Done) end
+    | NIncr false => (dec_str (ctr s), {| cap := cap s; ctr := S (ctr s); dctr := dctr s; last := last s; mac := mac s |}, Done)
+    | NIncr true => (45%N :: dec_str (S (dctr s)), {| cap := cap s; ctr := ctr s; dctr := S (dctr s); last := last s; mac := mac s |}, Done)
+    | NIf neg c cns alt d =>
+        match eval c s with
+        | inr e => ([], s, Raised e)
+        | inl (_, k) => if xorb neg (negb (Nat.eqb k 0)) then rblock dis cns s
+                        else match ralts dis alt s with Some r => r | None => rblock dis d s end
+        end
+    | NFor c body d =>
+        match eval c s with
+        | inr e => ([], s, Raised e)
+        | inl (_, O) => rblock dis d s
+        | inl (_, k) =>
+            (fix iter (k : nat) (s : rst) : rr :=
+               match k with
+               | O => ([], s, Done)
+               | S k' =>
+                   let '(t, c, o) := rblock dis body s in
+                   match o with
+                   | Done | Intr IContinue => let '(t2, c2, o2) := iter k' c in (t ++ t2, c2, o2)
+                   | Intr IBreak => (t, c, Done)
+                   | _ => (t, c, o)
+                   end
+               end) k s
+        end
+    | NTablerow c body =>
+        match eval c s with
+        | inr e => ([], s, Raised e)
+        | inl (_, k) =>
+            let '(t, s', o) :=
+              (fix iter (k i : nat) (s : rst) : rr :=
+                 match k with
+                 | O => ([], s, Done)
+                 | S k' =>
+                     let '(t, c, o) := rblock dis body s in
+                     match o with
+                     | Done | Intr IContinue => let '(t2, c2, o2) := iter k' (S i) c in (td_open i ++ t ++ td_close ++ t2, c2, o2)
+                     | Intr IBreak => (td_open i ++ t ++ td_close, c, Done)
+                     | _ => (td_open i ++ t, c, o)
+                     end
+                 end) k 1 s in
+            match o with Done => (tr_open ++ t ++ tr_close, s', Done) | _ => (tr_open ++ t, s', o) end
+        end
+    | NCase bs => rcases dis bs true s
+    | NCapture body =>
+        let '(t, c, o) := rblock dis body s in
+        match o with
+        | Done => ([], {| cap := t; ctr := ctr c; dctr := dctr c; last := last c; mac := mac c |}, Done)
+        | _ => ([], c, o)
+        end
+    | NIfchanged body =>
+        let '(t, c, o) := rblock dis body s in
+        match o with
+        | Done => if str_eqb t (last c) then ([], c, Done)
+                  else (t, {| cap := cap c; ctr := ctr c; dctr := dctr c; last := t; mac := mac c |}, Done)
+        | _ => ([], c, o)
+        end
+    | NGroup body => rblock dis body s
+    | NMacro body => ([], {| cap := cap s; ctr := ctr s; dctr := dctr s; last := last s; mac := Some body |}, Done)
+    | NCall r =>
+        match r with
+        | RMacro => match mac s with Some b => let '(t, o) := callm b in (t, s, o) | None => ([], s, Done) end
+        | _ => match eval r s with inl (t, _) => (t, s, Done) | inr e => ([], s, Raised e) end
+        end
+    | NExtends r =>
+        if inh_bad then ([], s, Raised EInherit)
+        else match eval r s with inl (t, _) => (t, s, Stop) | inr e => ([], s, Raised e) end
+    | NBlockTag r body =>
+        if dis then ([], s, Raised EDisabledTag)
+        else match eval r s with inr e => ([], s, Raised e) | inl _ => rblock dis body s end
+    | NTranslate sing _ => rblock dis sing s
+    | NBreak => ([], s, Intr IBreak)
+    | NContinue => ([], s, Intr IContinue)
+    end
+  with rblock (dis : bool) (b : block) (s : rst) {struct b} : rr :=
+    match b with
+    | BNil => ([], s, Done)
+    | BCons n b' => seq (rnode dis n s) (rblock dis b')
+    end
+  with ralts (dis : bool) (a : alts) (s : rst) {struct a} : option rr :=
+    match a with
+    | ANil => None
+    | ACons r b a' =>
+        match eval r s with
+        | inr e => Some ([], s, Raised e)
+        | inl (_, k) => if Nat.eqb k 0 then ralts dis a' s else Some (rblock dis b s)
+        end
+    end
+  with rcases (dis : bool) (c : cblocks) (dflt : bool) (s : rst) {struct c} : rr :=
+    match c with
+    | CNil => ([], s, Done)
+    | CWhen r b c' =>
+        match eval r s with
+        | inr e => ([], s, Raised e)
+        | inl (_, O) => rcases dis c' dflt s
+        | inl (_, k) =>
+            seq ((fix rep (k : nat) (s : rst) : rr :=
+                    match k with O => ([], s, Done) | S k' => seq (rblock dis b s) (rep k') end) k s)
+                (rcases dis c' false)
+        end
+    | CElse b c' => if dflt then seq (rblock dis b s) (rcases dis c' dflt) else rcases dis c' dflt s
+    end.
+End Render.
+
+(* a macro body runs in a copy of the context: fresh variables, counters and macro table, include and block disabled;
+   calls nested deeper than [lv] levels render nothing (the check never reaches that depth) *)
+Fixpoint call_at (inh_bad : bool) (lv : nat) (b : block) : str * outcome :=
+  match lv with
+  | O => ([], Done)
+  | S lv' => let '(t, _, o) := rblock (call_at inh_bad lv') inh_bad true b rst0 in (t, o)
   end.
+
+(* extends and block nodes anywhere in the tree (the inheritance machinery walks all children) *)
+Fixpoint cnt_node (n : node) : nat * nat :=
+  let add := fun (a b : nat * nat) => (fst a + fst b, snd a + snd b) in
+  match n with
+  | NExtends _ => (1, 0)
+  | NBlockTag _ body => add (0, 1) (cnt_block body)
+  | NIf _ _ cns alt d => add (cnt_block cns) (add (cnt_alts alt) (cnt_block d))
+  | NFor _ body d => add (cnt_block body) (cnt_block d)
+  | NTablerow _ body | NCapture body | NIfchanged body | NGroup body | NMacro body => cnt_block body
+  | NCase bs => cnt_cases bs
+  | NTranslate a b => add (cnt_block a) (cnt_block b)
+  | _ => (0, 0)
+  end
+with cnt_block (b : block) : nat * nat :=
+  match b with BNil => (0, 0) | BCons n b' => (fst (cnt_node n) + fst (cnt_block b'), snd (cnt_node n) + snd (cnt_block b')) end
+with cnt_alts (a : alts) : nat * nat :=
+  match a with ANil => (0, 0) | ACons _ b a' => (fst (cnt_block b) + fst (cnt_alts a'), snd (cnt_block b) + snd (cnt_alts a')) end
+with cnt_cases (c : cblocks) : nat * nat :=
+  match c with
+  | CNil => (0, 0)
+  | CWhen _ b c' | CElse b c' => (fst (cnt_block b) + fst (cnt_cases c'), snd (cnt_block b) + snd (cnt_cases c'))
+  end.
+
+Definition inheritance_bad (b : block) : bool := Nat.ltb 1 (fst (cnt_block b)) || Nat.ltb 1 (snd (cnt_block b)).
+Definition call_depth : nat := 8.
 
 (* BoundTemplate.render_with_context for a top-level template: out is the buffer *)
-Fixpoint render_top (m : mode) (b : block) (cap : str) (out : str) (l : log) : res (str * log) :=
-  match b with
-  | BNil => Ok (out, l)
-  | BCons n b' =>
-      let '(t, c, o) := rnode n cap in
-      match o with
-      | Done => render_top m b' c (out ++ t) l
-      | Intr _ => do l' <- handle m ESyntax l; render_top m b' c (out ++ t) l'
-      | Raised e =>
-          if is_liquid e then do l' <- handle m e l; render_top m b' c (out ++ t) l'
-          else Err e
-      end
-  end.
+Section Top.
+  Variable inh_bad : bool.
+  Fixpoint render_top (m : mode) (b : block) (s : rst) (out : str) (l : log) : res (str * log) :=
+    match b with
+    | BNil => Ok (out, l)
+    | BCons n b' =>
+        let '(t, c, o) := rnode (call_at inh_bad call_depth) inh_bad false n s in
+        match o with
+        | Done => render_top m b' c (out ++ t) l
+        | Stop => Ok (out ++ t, l)
+        | Intr _ => do l' <- handle m ESyntax l; render_top m b' c (out ++ t) l'
+        | Raised e =>
+            if is_liquid e then do l' <- handle m e l; render_top m b' c (out ++ t) l'
+            else Err e
+        end
+    end.
+End Top.
 
-Definition render (m : mode) (b : block) : res (str * log) := render_top m b [] [] log0.
+Definition render (m : mode) (b : block) : res (str * log) := render_top (inheritance_bad b) m b rst0 [] log0.
 
 (* ---------------------------------------------------------------- what the check observes *)
 Inductive obs :=
-| OParseErr (e : exn)                    (* from_string raised *)
-| ORenderErr (e : exn)                   (* render raised *)
-| OOut (text : str) (nwarn : nat)        (* rendered text and the number of warnings issued by from_string + render *)
+| OParseErr (e : exn)
+| ORenderErr (e : exn)
+| OOut (text : str) (nwarn : nat)
 | OFuel.
 
 Record rcase := { rc_mode : mode; rc_limit : nat; rc_toks : list tok }.
